@@ -81,6 +81,34 @@ PROPS = {
         "level_note": VERUS_TRUST + "shim: str < str is byte-wise lexicographic (assumed std contract); contracts of DeweyVersion::new, dewey_cmp, "
                       "PkgName::new/pkgversion imported from the units that prove them (run in the same check). Reduction lemma is stated over matching candidates.",
     },
+    "C14": {
+        "units": ["plist"],
+        "design_ref": "DESIGN.md section 8 / C14",
+        "replay": "plist",
+        "level_text": "Unbounded proof on the real functions: Plist::from_bytes' scanner is proved to collect exactly `ranges(bytes)` - the "
+                      "'\\n'-separated segments containing a non-whitespace byte, in order, with or without a final newline (abstraction "
+                      "invariant lines ++ ranges(b,start) == ranges(b,0)) - and to push, for each, PlistEntry::from_bytes of exactly that "
+                      "slice (so each entry equals parsing that line alone; first failing line fails the whole parse). PlistEntry::from_bytes "
+                      "(macros expanded mechanically) is proved equal to entry_spec: the statement's command table with its "
+                      "required/optional/forbidden argument rule, argument = bytes after the first space with leading blanks stripped, "
+                      "UTF-8 required for name/dependency/mode/owner/group.",
+        "level_note": VERUS_TRUST + "OsStr/OsString as opaque byte containers (S-os shims), String::from_utf8, from_utf8_lossy (ASCII words decode "
+                      "to themselves and only to themselves), slice position; char::is_whitespace/u8::is_ascii (vstd / assumed scalar). "
+                      "The error *kind* of an invalid-UTF-8 argument is not pinned (Verus gives `?` no From specification); it is proved to be an error.",
+    },
+    "C15": {
+        "units": ["plist"],
+        "design_ref": "DESIGN.md section 8 / C15",
+        "replay": "plist",
+        "level_text": "Unbounded proof on the real functions (iterator chains rewritten mechanically into indexed loops, closure bodies "
+                      "inlined): files/files_prefixed/install_cmds/uninstall_cmds return exactly kept_files / cmds of the entry sequence "
+                      "(flag automaton: an @ignore anywhere since the previous file drops the next file), prefixed with the most recent "
+                      "@cwd (+ '/' unless it ends in one); depends/build_depends/conflicts/pkgdirs/pkgrmdirs return every entry of "
+                      "their kind in order, pkgname/display the first, is_preserve iff an @option preserve exists; lemma_cmds_files: "
+                      "the file entries of both command lists are exactly files().",
+        "level_note": VERUS_TRUST + "rewrite rules D1-D4/D7 (loop forms of filter_map/filter/find_map/count, macro expansion) - the verified "
+                      "text is the rewritten form; OsString shims (push, to_os_string, to_string_lossy().ends_with('/')).",
+    },
     "C18": {
         "units": ["pkgname", "dewey"],
         "always_devs": ["letter_value_is_ascii_code"],
